@@ -220,7 +220,24 @@ func runSimProp(t *testing.T, p *simProp) {
 	})
 }
 
+// probeFail reports the failure of an enumerated (non-generated) part of a check: the replay file
+// names the probe, and replaying it runs the enumerated part again.
+func probeFail(t *testing.T, prop, probe, msg string) {
+	core.WriteFail(map[string]any{"property": prop, "build": core.BuildName(), "probe": probe, "message": msg})
+	t.Fatalf("%s violated: %s", prop, msg)
+}
+
 func replaySim(t *testing.T, path string, p *simProp, st *core.Stats) {
+	var pr struct {
+		Probe string `json:"probe"`
+	}
+	if err := core.ReadReplay(path, &pr); err == nil && pr.Probe != "" {
+		if p.Once == nil {
+			t.Fatalf("replay names probe %q but the check has no enumerated part", pr.Probe)
+		}
+		p.Once(t, st)
+		return
+	}
 	var r core.Replay
 	if err := core.ReadReplay(path, &r); err != nil {
 		t.Fatalf("cannot read replay: %v", err)
